@@ -69,7 +69,17 @@ func init() {
 			"lines are split on LF, CRLF and lone CR",
 		},
 		Run: func(c *Ctx) {
-			c.forPlan(c09Plan, c09Driver)
+			c.forPlan(c09Plan, func(x *X, d []byte) {
+				c09Driver(x, d)
+				// Documents with brackets (links, images, reference definitions) also
+				// with CRLF and CR line endings: where a definition or a multi-line
+				// link part ends relative to a two-byte line ending, behind a prefix.
+				if bytes.IndexByte(d, '[') >= 0 {
+					for _, v := range eolVariants(d) {
+						c09Driver(x, v)
+					}
+				}
+			})
 		},
 	})
 }
